@@ -158,13 +158,15 @@ func init() {
 			Harness{Fn: "ZZC02Builtins", Expect: []string{"builtin-rand", "builtin-print", "builtin-font", "builtin-poly", "witness:end"}, MaxInstr: 5_000_000},
 			Harness{Fn: "ZZC02Primitives", Expect: []string{"repeat", "concat", "fromany", "zero", "witness:end"}},
 			Harness{Fn: "ZZC02Programs", Expect: []string{"program-ok", "witness:end"}},
+			Harness{Fn: "ZZC02Shadow", Expect: []string{"shadow-if", "shadow-while", "shadow-fornum", "shadow-formap", "witness:end"}},
+			Harness{Fn: "ZZC02Index", Expect: []string{"index-ok", "index-panic", "witness:end"}},
 		)},
 		Assumptions: []string{
 			"unit layer: every entry of newBuiltins is called once with arguments of its declared parameter types: nums and bools unconstrained symbolic values, strings from {\"\", \"a\", \"añ✓\", \"%v %d %s\", \"12\"}, any-wrapped num/string/bool/[]num/{}num, arrays and maps of 0..2 elements, 0..3 variadic arguments; the platform is a recording stub, the random source a contract stub",
 			"every Go-level panic on an explored path (nil dereference, failed type assertion, index/makeslice out of range, explicit panic) is reported by the engine",
 			"memory exhaustion by legitimately huge data is outside; a Go makeslice panic is inside",
 		},
-		Outside:   []string{"sequences of built-in calls (state carried between calls) beyond the programs listed", "strings outside the class set", "programs beyond the eight listed for the typeof/static-type agreement (C04 checks typeof for every accepted assignment)"},
+		Outside:   []string{"sequences of built-in calls (state carried between calls) beyond the programs listed", "strings outside the class set", "programs beyond the listed ones for the typeof/static-type agreement (C04 checks typeof for every accepted assignment)", "shadowing: one block per program, 5 value types; index programs: strings {\"\", a, ñ, añ✓} and the arrays of their characters"},
 		LevelText: "bounded symbolic execution of every built-in (builtin.go) and of evalBinaryArrayExpr/valueFromAny/zero with symbolic numbers and bools: no host panic, errors only from the documented taxonomy (ErrPanic, ExitError, ErrTest — never ErrInternal), results of the declared dynamic type, an any never wraps an any",
 		LevelNote: "trusts the engine's implicit checks and cvc5; argument classes as listed",
 		DesignRef: "DESIGN.md §6 C02",
